@@ -115,3 +115,13 @@ def schedules_two(n0: int, n1: int, bound: int, stride: int = 1):
         for k in range(1, n0 + 1, stride):
             for j in range(1, n1 + 1, stride):
                 yield [(0, k, 1), (1, j, 0)]
+
+
+def schedules_three(ns: list[int], stride: int = 1):
+    """Three threads (0 starts, others follow in order), exactly <= 1 preemption."""
+    yield []
+    for t in range(3):
+        for u in range(3):
+            if u != t:
+                for k in range(1, ns[t] + 1, stride):
+                    yield [(t, k, u)]
